@@ -57,6 +57,7 @@ struct Alone {
 fn alone<W: RtcpPacketWriter>(w: &W) -> Alone {
     let mut img = [0u8; MB];
     let r = w.write_into(&mut img);
+    assert!(!matches!(r, Err(RtcpWriteError::OutputTooSmall(_))), "HARNESS: member image buffer too small");
     Alone { r, img, padded: w.get_padding().unwrap_or(0) > 0 }
 }
 
@@ -144,16 +145,18 @@ fn check_parse<const N: usize, const K: usize>(buf: &[u8; 128], n: usize, m: &[A
         q += 1;
     }
     assert!(it.next().is_none(), "more packets than members");
-    vcover!(true, "parsed back");
 }
 
 fn check<S: Src, const N: usize, const K: usize>(s: &mut S, c: &CompoundBuilder<'_>, m: &[Alone; N], parse_back: bool) {
     let mut buf = [0xA5u8; 128];
+    let mut parsed = false;
     if let Some(n) = check_build::<S, N>(s, c, m, &mut buf) {
         if parse_back && N > 0 {
             check_parse::<N, K>(&buf, n, m);
+            parsed = true;
         }
     }
+    vcover!(!parse_back || N == 0 || parsed, "parsed back");
 }
 
 fn draw_bye<S: Src>(s: &mut S) -> ByeCfg<1, 6> {
@@ -262,7 +265,9 @@ pub fn sdes_member<S: Src, const LAST: bool>(s: &mut S) {
 
 /// A nested compound is a member like any other; so is a third-party writer.
 pub fn nested_foreign<S: Src>(s: &mut S) {
-    let (a, b) = (draw_rr(s), draw_bye(s));
+    let a = RrCfg::<0>::draw(s);
+    s.assume(a.padding <= 8);
+    let b = draw_bye(s);
     let f = Foreign { words: s.upto(2), padding: s.u8(), fill: s.u8() };
     s.assume(f.padding <= 8);
     let inner = || Compound::builder().add_packet(a.builder()).add_packet(f);
